@@ -73,7 +73,7 @@ ALLOWED_AXIOMS = set()  # target: every property theorem is closed under the glo
 FORBIDDEN = re.compile(r"\b(Admitted|admit|Axiom|Parameter|Conjecture|Hypothesis|Variable|bypass_check|Unset Guard|Admit Obligations)\b")
 
 
-def coq_audit(pid):
+def coq_audit(pid, thorough=False):
     """Re-checks props/<pid>.v with coqc (so the kernel re-checks the theorems on this run), parses
     the Print Assumptions output and greps the development for escape hatches."""
     f = os.path.join(COQ, "props", pid + ".v")
@@ -105,6 +105,13 @@ def coq_audit(pid):
     if n_print < len(names):
         res["problems"].append("%d theorems but only %d Print Assumptions" % (len(names), n_print))
     res["discharged"] = min(closed + (len(names) - closed if not bad and n_print >= len(names) else 0), len(names)) if not res["problems"] else closed
+    if thorough and not res["problems"]:
+        # independent re-check of the compiled theorem file and everything it depends on
+        rc, out = sh("timeout 3000 coqchk -o -silent -Q theories Enr -Q proofs EnrProofs -Q props EnrProps EnrProps.%s 2>&1" % pid, cwd=COQ, timeout=3100, check=False)
+        m = re.search(r"\* Axioms:\s*(.*?)\n\s*\n", out, re.S)
+        res["coqchk"] = {"exit": rc, "axioms": (m.group(1).strip() if m else "?")}
+        if rc != 0 or not m or m.group(1).strip() != "<none>":
+            res["problems"].append("coqchk does not accept props/%s.vo with an empty axiom list: %s" % (pid, out[-400:]))
     # escape hatches anywhere in the development (sections' Variables are allowed: they are inside Section)
     for root in ("theories", "proofs", "props"):
         d = os.path.join(COQ, root)
@@ -420,6 +427,7 @@ def write_evidence(pid, tier, seed, audit, cov, wall, violations, assumptions, e
             "theorems": audit["theorems"],
             "axioms_reported": audit["axioms"],
             "audit_problems": audit["problems"],
+            "coqchk": audit.get("coqchk", "thorough tier only"),
         },
         "assumptions": assumptions,
         "wall_s": round(wall, 2),
